@@ -90,14 +90,17 @@ def cut_of(h, p):
 
 def run(tier, seed):
     ck = Check("C09", tier, seed)
-    ck.trusted += ["coq/Engine/Lifetime.v: hand-written heap-graph model (objects, visible/raw edges, close/drop/gc); its visible edges were read off "
-                   "wazevo/module_engine.go, wazevo/engine.go, interpreter.go, wasm/store.go, wasm/table.go and are tied to the code only by the correspondence run",
-                   "Go's collector, finalizers and munmap are runtime behaviour: exercised with forced collections in a supervised child process, not modelled beyond `gc`",
-                   "harness/c09 (Go: wasm encoder, history generator, child supervision, twin runtime) and checks/c09.py (case conversion, oracle)"]
+    ck.trusted += ["coq/Engine/Lifetime.v: hand-written heap-graph model (objects, visible/raw edges, instantiate/close/drop/gc); its visible edges were read off "
+                   "wazevo/module_engine.go (parent, importedFunctions[i].me, localFunctionInstances), wazevo/engine.go (compiledModules, executables finalizer), interpreter.go, "
+                   "wasm/store.go (moduleList, resolveImports), wasm/table.go (involvingModuleInstances) and are tied to the code only by the correspondence run",
+                   "Go's collector, finalizers and munmap are runtime behaviour: exercised with forced collections in supervised child processes, not modelled beyond `gc`",
+                   "harness/c09 (Go: wasm encoder, history generator, child supervision, twin runtime, heap churn) and checks/c09.py (case conversion, oracle)"]
     ck.assumptions += ["the model's gc is the most aggressive collector (everything not visibly reachable from host handles and in-flight calls); the real collector may keep more, which can hide but never cause a dangling use",
-                       "where the engines differ the model keeps the fewer visible edges (wazevo function records, interpreter globals)",
-                       "compiling after the engine behind a closed CompilationCache is not exercised; memories and imported globals are not part of the histories",
-                       "F08-class histories (a funcref placed by parameter into a holder that does not track its definer) are cut before the dangling use; one canonical witness is executed"]
+                       "where the engines differ the model keeps the fewer visible edges (wazevo function records have no pointer to their instance, the interpreter's GlobalInstance none to its engine)",
+                       "a closed instance still executes (wazero consults Closed only when an exported call returns): modelled so; its results are compared as 'ordinary error'",
+                       "compiling after the engine behind a closed CompilationCache is not exercised (the compiler engine panics there: reported separately); memories are not part of the histories; "
+                       "exported/imported funcref globals are modelled and proved about but appear in the run only as the fixed F08b witness",
+                       "F08-class histories (a funcref placed by parameter into a holder that does not track its definer) are cut before the dangling use; the canonical F08 and F08b witnesses are executed in their own children"]
     proofs_ok = ck.proofs()
     n = 32 if tier == "quick" else 800
     binp, log = build_harness("c09")
